@@ -80,6 +80,7 @@ pub fn state_json(fxr: &FXRates, names: &[String], _r: &mut Rng) -> Value {
     let full_h = n <= 4;
     let mut hp: Vec<usize> = vec![]; // 1-based flat indices (i-1)*n + j of the pairs whose Hessian is logged
     let mut h = vec![];
+    let mut hr = vec![];
     for i in 0..n {
         for j in 0..n {
             let x = fxr.rate(&cc[i], &cc[j]).expect("rate of known currencies");
@@ -90,6 +91,10 @@ pub fn state_json(fxr: &FXRates, names: &[String], _r: &mut Rng) -> Value {
             if order == 2 && (full_h || (i * 7 + j * 3) % ((n * n + 11) / 12) == 0) {
                 hp.push(i * n + j + 1);
                 h.push(fmat(&grad2(&x, names)));
+                // the same Hessian asked for by the rate's OWN names in reverse order (exactly its variable set, another order)
+                let mut own = number_vars(&x);
+                own.reverse();
+                hr.push(json!({"names": own, "m": fmat(&grad2(&x, &own))}));
             }
         }
     }
@@ -121,7 +126,7 @@ pub fn state_json(fxr: &FXRates, names: &[String], _r: &mut Rng) -> Value {
                   "array": arr, "vector": vecv, "rate": rates, "idx": idx, "quotes": pq,
                   "outsider_none": rpy::rate(fxr, &outsider, &v.base)?.is_none(), "copy_eq": rpy::eq(fxr, rpy::copy(fxr))}))
     }) { Outcome::Ok(Ok(v)) => v, Outcome::Ok(Err(e)) => json!({"fail": e}), Outcome::Panic(_) => json!({"fail": "panic"}) };
-    json!({"ccys": ccys, "order": order, "names": names, "re": re, "g": g, "kinds": kinds, "vars": present, "hp": hp, "h": h,
+    json!({"ccys": ccys, "order": order, "names": names, "re": re, "g": g, "kinds": kinds, "vars": present, "hp": hp, "h": h, "hr": hr,
            "quotes": quotes, "unknown_none": none_ok, "py": py})
 }
 
@@ -222,10 +227,13 @@ fn rand_ops(r: &mut Rng, quotes: &[Quote], len: usize) -> Vec<Op> {
         match r.below(8) {
             0 | 1 | 2 => {
                 // update one or two existing pairs with new values (kind of the quote preserved)
+                // (now and then the SAME pair twice in one list: the later quote is the latest)
                 let k = 1 + r.below(2) as usize;
                 let mut upd = vec![];
-                for _ in 0..k {
-                    let i = r.below(cur.len() as u64) as usize;
+                let twice = r.chance(0.3);
+                let first = r.below(cur.len() as u64) as usize;
+                for step in 0..k {
+                    let i = if twice || step == 0 { first } else { r.below(cur.len() as u64) as usize };
                     let mut q = cur[i].clone();
                     q.v = rand_rate(r);
                     cur[i] = q.clone();
